@@ -805,3 +805,6 @@ impl Location {
         self.lo <= offset && offset < self.hi
     }
 }
+
+#[cfg(all(kani, abra_verif))]
+include!(concat!(env!("ABRA_VERIF_HARNESS_DIR"), "/ast.rs"));
